@@ -348,7 +348,11 @@ func cmdCheck(args []string) int {
 	for _, ob := range failed {
 		site := ob.Name
 		if i := strings.LastIndex(site, "#"); i > 0 {
+			rest := site[i:]
 			site = site[:i]
+			if j := strings.Index(rest, "."); j > 0 {
+				site += rest[j:] // keep the conjunct number, drop the path number
+			}
 		}
 		if seenSite[site] {
 			continue // same duty on another path: one report per site
@@ -417,20 +421,20 @@ func writeEvidence(property, tier string, seed int, all []*Obligation, funcs []f
 	stats.mu.Unlock()
 	ev := evidence{PropertyID: property, Tier: tier, Seed: seed, Level: "proof", WallS: wall, Violations: violations,
 		Coverage: map[string]interface{}{
-			"obligations":         len(all) - nTriv,
-			"discharged":          nDis,
-			"trivially_closed":    nTriv,
-			"checker_cmd":         fmt.Sprintf("/verif/bin/stunvc check -property %s -tier %s", property, tier),
-			"trusted_base":        tb,
-			"functions":           funcs,
-			"obligations_by_kind": perKind,
+			"obligations":          len(all) - nTriv,
+			"discharged":           nDis,
+			"trivially_closed":     nTriv,
+			"checker_cmd":          fmt.Sprintf("/verif/bin/stunvc check -property %s -tier %s", property, tier),
+			"trusted_base":         tb,
+			"functions":            funcs,
+			"obligations_by_kind":  perKind,
 			"transparent_unfolded": tl,
-			"tag_sets":            tsets,
-			"solvers":             sv,
-			"integer_mode":        "mathematical Int with exact wrap-around for 8/16/32-bit and unsigned types; int/int64 unbounded",
-			"samples":             samples,
-			"bounded_standins":    []string{},
-			"vacuity_probes":      nSmokes,
+			"tag_sets":             tsets,
+			"solvers":              sv,
+			"integer_mode":         "mathematical Int with exact wrap-around for 8/16/32-bit and unsigned types; int/int64 unbounded",
+			"samples":              samples,
+			"bounded_standins":     []string{},
+			"vacuity_probes":       nSmokes,
 		},
 		Assumptions: assumptionList(progs),
 	}
